@@ -246,6 +246,8 @@ def run(ctx: Ctx) -> None:
         miniblock.tie_all(ctx, drv, quick)
         from . import rxtie
         rxtie.tie_leaf(ctx, drv, quick)      # translated regular expressions + inline leaf rules (autolink, html_inline, entity)
+        from . import pipeline
+        pipeline.tie_full(ctx, drv, 2000 if quick else 60000)     # MarkdownIt.parse end to end on the modelled sub-language
     finally:
         drv.close()
     ctx.partial += [
